@@ -250,130 +250,134 @@ func snapEntry(s Snap) modelEntry {
 
 // crudModel is the sequential specification of one (namespace,type) partition, written from the
 // property statement.
-var crudModel = porcupine.Model{
-	Init: func() interface{} { return modelState{} },
-	Step: func(st, in, out interface{}) (bool, interface{}) {
-		s := st.(modelState)
-		i := in.(crudIn)
-		o := out.(crudOut)
-		switch i.Op.Kind {
-		case "get":
-			e := s[idIndex(i.Op.ID)]
-			if !e.Exists {
-				return o.Err.NotFound, s
-			}
-			if o.Err != (ErrClass{}) {
-				return false, s
-			}
-			return snapEntry(o.Snap) == e, s
-		case "list":
-			if o.Err != (ErrClass{}) {
-				return false, s
-			}
-			var parts []string
-			for k, e := range s {
-				if e.Exists {
-					parts = append(parts, fmt.Sprintf("r%d:%s", k, entrySnap(e)))
+var crudModel = makeCrudModel(modelState{})
+
+func makeCrudModel(init modelState) porcupine.Model {
+	return porcupine.Model{
+		Init: func() interface{} { return init },
+		Step: func(st, in, out interface{}) (bool, interface{}) {
+			s := st.(modelState)
+			i := in.(crudIn)
+			o := out.(crudOut)
+			switch i.Op.Kind {
+			case "get":
+				e := s[idIndex(i.Op.ID)]
+				if !e.Exists {
+					return o.Err.NotFound, s
 				}
-			}
-			return strings.Join(parts, "|") == o.List, s
-		case "create":
-			k := idIndex(i.Op.ID)
-			e := s[k]
-			if e.Exists {
-				// must fail as a (plain) conflict
-				return o.Err.Conflict && !o.Err.NotFound, s
-			}
-			if o.Err != (ErrClass{}) {
-				return false, s
-			}
-			// version 1 under the requested owner, content as passed
-			n := snapEntry(i.New)
-			n.Ver = 1
-			n.Owner = i.Op.Owner
-			got := snapEntry(o.Snap)
-			n.Created, n.Updated = got.Created, got.Updated
-			if got != n {
-				return false, s
-			}
-			s[k] = n
-			return true, s
-		case "update":
-			k := idIndex(i.Op.ID)
-			e := s[k]
-			exists := e.Exists
-			ownerOK := exists && e.Owner == i.Op.Owner
-			verOK := exists && e.Ver == verNum(i.BaseVer)
-			phaseOK := exists
-			switch i.Op.Phase {
-			case "", "running":
-				phaseOK = exists && e.Phase == "running"
-			case "tearingDown":
-				phaseOK = exists && e.Phase == "tearingDown"
-			}
-			if exists && ownerOK && verOK && phaseOK {
 				if o.Err != (ErrClass{}) {
 					return false, s
 				}
+				return snapEntry(o.Snap) == e, s
+			case "list":
+				if o.Err != (ErrClass{}) {
+					return false, s
+				}
+				var parts []string
+				for k, e := range s {
+					if e.Exists {
+						parts = append(parts, fmt.Sprintf("r%d:%s", k, entrySnap(e)))
+					}
+				}
+				return strings.Join(parts, "|") == o.List, s
+			case "create":
+				k := idIndex(i.Op.ID)
+				e := s[k]
+				if e.Exists {
+					// must fail as a (plain) conflict
+					return o.Err.Conflict && !o.Err.NotFound, s
+				}
+				if o.Err != (ErrClass{}) {
+					return false, s
+				}
+				// version 1 under the requested owner, content as passed
 				n := snapEntry(i.New)
-				n.Ver = e.Ver + 1
-				n.Created = e.Created
+				n.Ver = 1
+				n.Owner = i.Op.Owner
 				got := snapEntry(o.Snap)
-				n.Updated = got.Updated
+				n.Created, n.Updated = got.Created, got.Updated
 				if got != n {
 					return false, s
 				}
 				s[k] = n
 				return true, s
-			}
-			// must fail, with a class naming one of the failed conditions
-			switch {
-			case o.Err == (ErrClass{}):
-				return false, s
-			case o.Err.NotFound:
-				return !exists, s
-			case o.Err.Owner:
-				return exists && !ownerOK, s
-			case o.Err.Phase:
-				return exists && !phaseOK, s
-			case o.Err.Conflict:
-				return exists && !verOK, s
-			}
-			return false, s
-		case "destroy":
-			k := idIndex(i.Op.ID)
-			e := s[k]
-			exists := e.Exists
-			ownerOK := exists && e.Owner == i.Op.Owner
-			finsOK := exists && e.Fins == ""
-			if exists && ownerOK && finsOK {
-				if o.Err != (ErrClass{}) {
-					return false, s
+			case "update":
+				k := idIndex(i.Op.ID)
+				e := s[k]
+				exists := e.Exists
+				ownerOK := exists && e.Owner == i.Op.Owner
+				verOK := exists && e.Ver == verNum(i.BaseVer)
+				phaseOK := exists
+				switch i.Op.Phase {
+				case "", "running":
+					phaseOK = exists && e.Phase == "running"
+				case "tearingDown":
+					phaseOK = exists && e.Phase == "tearingDown"
 				}
-				s[k] = modelEntry{}
-				return true, s
-			}
-			switch {
-			case o.Err == (ErrClass{}):
+				if exists && ownerOK && verOK && phaseOK {
+					if o.Err != (ErrClass{}) {
+						return false, s
+					}
+					n := snapEntry(i.New)
+					n.Ver = e.Ver + 1
+					n.Created = e.Created
+					got := snapEntry(o.Snap)
+					n.Updated = got.Updated
+					if got != n {
+						return false, s
+					}
+					s[k] = n
+					return true, s
+				}
+				// must fail, with a class naming one of the failed conditions
+				switch {
+				case o.Err == (ErrClass{}):
+					return false, s
+				case o.Err.NotFound:
+					return !exists, s
+				case o.Err.Owner:
+					return exists && !ownerOK, s
+				case o.Err.Phase:
+					return exists && !phaseOK, s
+				case o.Err.Conflict:
+					return exists && !verOK, s
+				}
 				return false, s
-			case o.Err.NotFound:
-				return !exists, s
-			case o.Err.Owner:
-				return exists && !ownerOK, s
-			case o.Err.Phase:
+			case "destroy":
+				k := idIndex(i.Op.ID)
+				e := s[k]
+				exists := e.Exists
+				ownerOK := exists && e.Owner == i.Op.Owner
+				finsOK := exists && e.Fins == ""
+				if exists && ownerOK && finsOK {
+					if o.Err != (ErrClass{}) {
+						return false, s
+					}
+					s[k] = modelEntry{}
+					return true, s
+				}
+				switch {
+				case o.Err == (ErrClass{}):
+					return false, s
+				case o.Err.NotFound:
+					return !exists, s
+				case o.Err.Owner:
+					return exists && !ownerOK, s
+				case o.Err.Phase:
+					return false, s
+				case o.Err.Conflict:
+					return exists && !finsOK, s
+				}
 				return false, s
-			case o.Err.Conflict:
-				return exists && !finsOK, s
 			}
 			return false, s
-		}
-		return false, s
-	},
-	DescribeOperation: func(in, out interface{}) string {
-		i := in.(crudIn)
-		o := out.(crudOut)
-		return fmt.Sprintf("%s %s/%s owner=%q phase=%q base=%s mut=%s -> %s %s", i.Op.Kind, i.Part, i.Op.ID, i.Op.Owner, i.Op.Phase, i.BaseVer, i.Op.Mut, o.Err, entrySnap(snapEntry(o.Snap)))
-	},
+		},
+		DescribeOperation: func(in, out interface{}) string {
+			i := in.(crudIn)
+			o := out.(crudOut)
+			return fmt.Sprintf("%s %s/%s owner=%q phase=%q base=%s mut=%s -> %s %s", i.Op.Kind, i.Part, i.Op.ID, i.Op.Owner, i.Op.Phase, i.BaseVer, i.Op.Mut, o.Err, entrySnap(snapEntry(o.Snap)))
+		},
+	}
 }
 
 func applyMut(r resource.Resource, op CrudOp) {
@@ -533,7 +537,7 @@ func (cl *crudClient) get(ctx context.Context, op CrudOp, key, part string) {
 }
 
 // checkLinearizable partitions the history and checks each partition with porcupine.
-func checkLinearizable(recs []crudRec, out *Outcome, oracle string) {
+func checkLinearizable(recs []crudRec, out *Outcome, oracle string, inits map[string]modelState) {
 	parts := map[string][]porcupine.Operation{}
 	for _, r := range recs {
 		parts[r.In.Part] = append(parts[r.In.Part], porcupine.Operation{ClientId: r.Client, Input: r.In, Call: r.Call, Output: r.Out, Return: r.Ret})
@@ -541,7 +545,7 @@ func checkLinearizable(recs []crudRec, out *Outcome, oracle string) {
 	keys := sortedKeys(parts)
 	for _, k := range keys {
 		ops := parts[k]
-		res, info := porcupine.CheckOperationsVerbose(crudModel, ops, 20*time.Second)
+		res, info := porcupine.CheckOperationsVerbose(makeCrudModel(inits[k]), ops, 20*time.Second)
 		switch res {
 		case porcupine.Illegal:
 			var lines []string
@@ -594,7 +598,15 @@ func (c01) Run(t *testing.T, cs Case, trace bool) *Outcome {
 		return out
 	}
 	if out.Viol == nil {
-		checkLinearizable(recs, out, "C01/linearizability")
+		inits := map[string]modelState{}
+		if strings.Contains(c.Variant, "+preload") {
+			var ms modelState
+			for _, r := range preloaded() {
+				ms[idIndex(r.Metadata().ID())] = snapEntry(SnapOf(r))
+			}
+			inits["ns1/"+TypeA] = ms
+		}
+		checkLinearizable(recs, out, "C01/linearizability", inits)
 	}
 	// non-trivial: overlapping operations of different clients and a successful write
 	overlap := false
